@@ -1,19 +1,21 @@
 #!/usr/bin/env python3
-"""Apply a (supposedly behaviour-preserving) patch to /repo, run every quick check, undo.
+"""Apply a (supposedly behaviour-preserving) patch to /repo (or $VERIF_REPO), run every quick check, undo.
 usage: tools/refactor_run.py <patch.diff> [name]   -> prints one JSON line {name, tests, alarms}"""
 import json, os, signal, subprocess, sys, concurrent.futures as cf
 signal.signal(signal.SIGTERM, lambda *a: sys.exit(143))
+REPO = os.environ.get("VERIF_REPO", "/repo")                      # a scratch copy when run in the background
+BASE = os.path.dirname(os.path.dirname(os.path.abspath(__file__)))
 patch = os.path.abspath(sys.argv[1]); name = sys.argv[2] if len(sys.argv) > 2 else os.path.basename(os.path.dirname(patch))
 def sh(cmd, **kw):
     p = subprocess.run(cmd, shell=True, text=True, capture_output=True, **kw); return p.returncode, p.stdout + p.stderr
-rc, out = sh(f"git -C /repo apply {patch}")
+rc, out = sh(f"git -C {REPO} apply {patch}")
 assert rc == 0, out
 alarms = {}
 try:
-    rc, out = sh("cd /repo && /venv/bin/python -m pytest -q -p no:cacheprovider 2>&1 | tail -1")
+    rc, out = sh(f"cd {REPO} && PYTHONPATH={REPO} /venv/bin/python -m pytest -q -p no:cacheprovider 2>&1 | tail -1")
     tests = out.strip()
     def one(c):
-        rc, out = sh(f"./check {c} --tier quick", cwd="/verif")
+        rc, out = sh(f"./check {c} --tier quick", cwd=BASE)
         v = [l for l in out.splitlines() if l.startswith("VIOLATION")]
         det = []
         for l in v:
@@ -25,6 +27,6 @@ try:
         for c, rc, det in ex.map(one, [f"C{i:02d}" for i in range(1, 21)]):
             if rc != 0 or det: alarms[c] = det or [{"exit": rc}]
 finally:
-    sh("git -C /repo checkout -- .")
-    sh("git -C /verif checkout -- evidence replays 2>/dev/null")
+    sh(f"git -C {REPO} checkout -- .")
+    sh(f"git -C {BASE} checkout -- evidence replays 2>/dev/null")
 print(json.dumps({"name": name, "tests": tests, "alarms": alarms})[:4000])
